@@ -48,6 +48,8 @@ def cases(tier, seed):
             for size in ((2, 3) if tier == 'quick' else (2, 3, 4, 5)):
                 for draw in range(size):
                     out.append({'kind': 'sched', 'scenario': sc, 'grid': [size, 1], 'size': size, 'draw': draw, 'mode': mode, 'bound': 1 if size > 2 else 2, 'cost': 500})
+        for size in ((3, 4) if tier == 'quick' else (2, 3, 4, 5, 6)):
+            out.append({'kind': 'sched', 'scenario': 'S8', 'grid': [size, 1], 'size': size, 'mode': mode, 'bound': 1, 'cost': 700})
     # tiny worlds: every arrival order, unbounded
     for mode in ('S', 'N'):
         for sc in ('T1', 'T2'):
@@ -209,6 +211,32 @@ def _scenario(name, case, scratch):
             out.append(None if blk is None else float(np.sum(blk[3])))
             return out
         return fn
+    if name == 'S8':
+        # two independent simulations on the two halves of the world: everything must stay on the sub-communicator
+        def fn(r):
+            world = MPI.COMM_WORLD
+            size = world.Get_size()
+            color = 0 if r < (size + 1) // 2 else 1
+            sub = world.Split(color, r)
+            folder = 'sim%d' % color
+            g, c, t = setupCylindricalGrid(layout='v_parallel', npts=list(NPTS), comm=sub)
+            fill(g)
+            setupSave(c, folder, sub)
+            sub.Barrier()
+            g2, c2, t2 = setupFromFile(folder, comm=sub, layout='poloidal')          # folder without checkpoint: fresh initialisation
+            out = [t2, g2.currentLayout]
+            if color == 0:
+                out.append(g2.getMin(0))
+                out.append(g2.getMax(0))
+                g2.writeH5Dataset(folder, 3)
+                g3, c3, t3 = setupFromFile(folder, comm=sub)
+                out.append((t3, g3.currentLayout, g3.getMax(sub.Get_size() - 1, 0, 2)))
+            else:
+                out.append(g2.getMax(0, 0, 2))
+                dc_min = g.getMin(sub.Get_size() - 1)
+                out.append(dc_min)
+            return out
+        return fn
     if name == 'S4':
         def fn(r):
             comm = MPI.COMM_WORLD
@@ -267,7 +295,7 @@ def _explore_scenario(case):
                 res, w = sim.run_driver(case['grid'], d, 2, 1, 'out', chooser=explore.world_chooser(ch), mode=case['mode'])
                 cps = sim.read_checkpoints(os.path.join(d, 'out'))
                 obs = tuple((k, float(abs(v[0]).sum())) for k, v in sorted(cps.items()))
-            elif name == 'S3p':
+            elif name in ('S3p', 'S8'):
                 fn = _scenario(name, case, d)
                 w = simmpi.World(case['size'], chooser=explore.world_chooser(ch), mode=case['mode'])
                 import io, sys
